@@ -84,7 +84,7 @@ def lru_kw_cache(user_function):
     @wraps(user_function)
     def wrapper(*args, **kwargs):
         #return user_function(*args, **kwargs)
-        key = tuple(args) + tuple(kwargs)
+        key = tuple(args) + tuple(sorted(kwargs.items()))
         if key not in cache:
             #stats[1] += 1  # miss
             # Validate we didn't exceed the max_size:
@@ -132,7 +132,7 @@ def hit_cache(user_function):
 
     @wraps(user_function)
     def wrapper(*args, **kwargs):
-        key = tuple(args) + tuple(kwargs)
+        key = tuple(args) + tuple(sorted(kwargs.items()))
         if key not in cache:
             # Validate we didn't exceed the max_size:
             if len(cache) >= _max_size:
